@@ -16,9 +16,11 @@
 //!       remove, swap_remove}; no destructor during a non-panicking operation; on the bounds panic
 //!       exactly the elements dropped; every created Tr/Tz dropped exactly once by the end.
 //!
-//! `--sanitize` (thorough tier, second run): rebuilds this bin with the nightly toolchain under
-//! AddressSanitizer and forwards the child's records, so that an out-of-bounds read whose
-//! value is discarded (right answer, wrong access) aborts on the case that was running.
+//! `--sanitize` (second run): rebuilds this bin with the nightly toolchain under AddressSanitizer
+//! and forwards the child's records, so that an out-of-bounds read whose value is discarded
+//! (right answer, wrong access) aborts on the case that was running.  `--miri` (thorough tier):
+//! the cases with N <= 4 interpreted by Miri (aliasing of the by-reference halves, uninitialised
+//! reads, out-of-bounds accesses of any size).
 use generic_array::sequence::*;
 use generic_array::typenum::*;
 use generic_array::{ArrayLength, GenericArray};
@@ -670,12 +672,12 @@ fn mk(op: i128, kind: i128, n: usize, p: i128, rng: &mut Option<Rng>, m: usize) 
     c
 }
 
-fn generate(rng: &mut Option<Rng>, boundary: bool) {
+fn generate(rng: &mut Option<Rng>, small_max: usize, boundary: bool) {
     const MAX: i128 = usize::MAX as i128;
     for kind in 0..5i128 {
         let x = new_elem(kind);
         // small scope, exhaustively
-        for n in 0..=8usize {
+        for n in 0..=small_max {
             dist(&format!("N{}", n));
             do_case(mk(0, kind, n, x, rng, 0));
             do_case(mk(1, kind, n, x, rng, 0));
@@ -703,7 +705,7 @@ fn generate(rng: &mut Option<Rng>, boundary: bool) {
                 do_case(mk(5, kind, n, k as i128, rng, 0));
                 do_case(mk(6, kind, n, k as i128, rng, 0));
             }
-            for m in 0..=(8 - n) {
+            for m in 0..=(small_max - n) {
                 dist("concat");
                 do_case(mk(7, kind, n, m as i128, rng, m));
             }
@@ -741,24 +743,69 @@ fn generate(rng: &mut Option<Rng>, boundary: bool) {
     }
 }
 
-/// Rebuild this bin under AddressSanitizer (nightly) and forward the child's records.
-fn sanitize(a: &Args) -> i32 {
-    use std::process::Command;
+/// Re-run the fixed-identity cases in a child built with a checking tool and forward the
+/// child's records (its stdout is ours).  `asan`: this bin rebuilt with the nightly toolchain
+/// under AddressSanitizer, all lengths.  `miri`: the bin interpreted by Miri (Stacked Borrows,
+/// uninitialised reads, out-of-bounds of any size), N <= 4.
+fn child(a: &Args, miri: bool) -> i32 {
+    use std::process::{Command, Stdio};
+    let what = if miri { "Miri" } else { "AddressSanitizer" };
     let manifest_dir = env!("CARGO_MANIFEST_DIR");
-    let repo = std::env::var("VERIF_REPO").unwrap_or_else(|_| "/repo".into());
-    let tag: u64 = repo.bytes().fold(1469598103934665603u64, |h, b| (h ^ b as u64).wrapping_mul(1099511628211));
-    let out_dir = std::env::var("VERIF_OUT").unwrap_or_else(|_| ".".into());
-    // <verif>/out/run/C09 -> <verif>/.build
-    let build = std::path::Path::new(&out_dir).join("../../../.build").join(format!("harness-target-asan-{:x}", tag & 0xffff_ffff));
+    // the build root: <verif>/.build (the manifest is <verif>/harness or, for a scratch copy of the crate,
+    // <verif>/.build/harness-shadow-<tag>, which names the copy)
+    let md = std::path::Path::new(manifest_dir);
+    let parent = md.parent().unwrap_or(md);
+    let root = if parent.file_name().map(|f| f == ".build").unwrap_or(false) { parent.to_path_buf() } else { parent.join(".build") };
+    let tag: u64 = manifest_dir.bytes().fold(1469598103934665603u64, |h, b| (h ^ b as u64).wrapping_mul(1099511628211));
+    let build = root.join(format!("harness-target-{}-{:x}", if miri { "miri" } else { "asan" }, tag & 0xffff_ffff));
     let target = "x86_64-unknown-linux-gnu";
+    let seed = a.seed.to_string();
+    // a replay is passed through: the one case runs under the tool
+    let child_args = |tier: &str| -> Vec<String> {
+        match &a.replay {
+            Some(c) => vec!["--replay".into(), c.iter().map(|x| x.to_string()).collect::<Vec<_>>().join(" ")],
+            None => vec!["--tier".into(), tier.into(), "--seed".into(), seed.clone()],
+        }
+    };
+    if miri {
+        // build errors and interpreter findings both end the child with a failure status; tell them apart
+        // by whether a CASE was started (the driver reads the records)
+        let st = Command::new("cargo")
+            .args(["+nightly", "miri", "run", "--offline", "--bin", "c09", "--"])
+            .args(child_args("miri-child"))
+            .current_dir(manifest_dir)
+            .env("CARGO_TARGET_DIR", &build)
+            .env("CARGO_NET_OFFLINE", "true")
+            .env("MIRIFLAGS", "-Zmiri-disable-isolation")
+            .env_remove("RUSTFLAGS")
+            .stderr(Stdio::piped())
+            .stdout(Stdio::inherit())
+            .output();
+        return match st {
+            Ok(o) if o.status.success() => {
+                note("check-child: Miri pass completed");
+                0
+            }
+            Ok(o) => {
+                let err = String::from_utf8_lossy(&o.stderr);
+                let tail: Vec<&str> = err.lines().filter(|l| l.contains("error") || l.contains("Undefined Behavior")).take(4).collect();
+                eprintln!("Miri child failed: {}", tail.join(" | "));
+                o.status.code().unwrap_or(1).max(1)
+            }
+            Err(e) => {
+                note(&format!("check-child: cannot start Miri, pass skipped: {}", e));
+                0
+            }
+        };
+    }
     let st = Command::new("cargo")
         .args(["+nightly", "build", "--offline", "--bin", "c09", "--target", target])
         .current_dir(manifest_dir)
         .env("RUSTFLAGS", "-Zsanitizer=address")
         .env("CARGO_TARGET_DIR", &build)
         .env("CARGO_NET_OFFLINE", "true")
-        .stdout(std::process::Stdio::null())
-        .stderr(std::process::Stdio::piped())
+        .stdout(Stdio::null())
+        .stderr(Stdio::piped())
         .output();
     let ok = matches!(&st, Ok(o) if o.status.success());
     if !ok {
@@ -766,18 +813,18 @@ fn sanitize(a: &Args) -> i32 {
             Ok(o) => String::from_utf8_lossy(&o.stderr).lines().rev().take(6).collect::<Vec<_>>().join(" | "),
             Err(e) => e.to_string(),
         };
-        // not a property failure: the sanitizer pass is an extra; say so in the evidence
-        note(&format!("sanitize: AddressSanitizer build unavailable, pass skipped: {}", why));
+        // not a property failure: the pass is an extra; say so in the evidence
+        note(&format!("check-child: {} build unavailable, pass skipped: {}", what, why));
         return 0;
     }
     let exe = build.join(target).join("debug").join("c09");
     let st = Command::new(&exe)
-        .args(["--tier", "asan-child", "--seed", &a.seed.to_string()])
+        .args(child_args("asan-child"))
         .env("ASAN_OPTIONS", "detect_leaks=0:abort_on_error=0:exitcode=23:detect_stack_use_after_return=0")
         .status(); // stdout inherited: the child's CASE/OBS/ORACLE lines are our records
     match st {
         Ok(s) if s.success() => {
-            note("sanitize: AddressSanitizer pass completed");
+            note("check-child: AddressSanitizer pass completed");
             0
         }
         Ok(s) => {
@@ -794,17 +841,26 @@ fn sanitize(a: &Args) -> i32 {
 fn main() {
     let a = args();
     quiet_panics();
+    if a.extra.iter().any(|x| x == "--sanitize") {
+        std::process::exit(child(&a, false));
+    }
+    if a.extra.iter().any(|x| x == "--miri") {
+        std::process::exit(child(&a, true));
+    }
     if let Some(c) = a.replay.clone() {
         do_case(c);
         return;
     }
-    if a.extra.iter().any(|x| x == "--sanitize") {
-        std::process::exit(sanitize(&a));
+    if a.tier == "miri-child" {
+        let mut none: Option<Rng> = None;
+        generate(&mut none, 4, false);
+        flush_dist();
+        return;
     }
     let thorough = a.tier == "thorough";
     // fixed identities: the whole quantifier of the property in both tiers
     let mut none: Option<Rng> = None;
-    generate(&mut none, true);
+    generate(&mut none, 8, true);
     if a.tier == "asan-child" {
         flush_dist();
         return;
@@ -813,7 +869,7 @@ fn main() {
     let rounds = if thorough { 12 } else { 1 };
     let mut rng = Some(Rng::new(a.seed));
     for r in 0..rounds {
-        generate(&mut rng, r % 4 == 0);
+        generate(&mut rng, 8, r % 4 == 0);
     }
     flush_dist();
 }
